@@ -714,6 +714,9 @@ func isArrayStringEqual(a []string, b []string) bool {
 	if len(a) != len(b) {
 		return false
 	}
+	// (on copies: the unique statements of the schema keep the order they were written in)
+	a = append([]string(nil), a...)
+	b = append([]string(nil), b...)
 	sort.Strings(a)
 	sort.Strings(b)
 	for i := range a {
